@@ -2,6 +2,10 @@
 BASELINE = "cd /repo && /venv/bin/python -m pytest -ra -q -p no:cacheprovider --timeout=900 --continue-on-collection-errors"
 
 ENGINES = [
+    {"name": "sqlsym", "path": "vt/sqlsym/", "serves_properties": ["C01", "C03"],
+     "kind_free_text": "MySQL-subset parser + symbolic/concrete interpreter over bounded key spaces (z3 terms, no path forking); routines read from the migrations in build.yaml order"},
+    {"name": "glue", "path": "vt/glue.py", "serves_properties": ["C01", "C03"],
+     "kind_free_text": "runs the real front-end/driver Python natively on the symbolic database with proxy values; DFS over branch decisions with z3 feasibility; merges paths by ite"},
     {"name": "chrun", "path": "vt/chrun.py", "serves_properties": ["C19"],
      "kind_free_text": "CrossHair (symbolic execution of the real Python with z3), one process per condition; only 'Confirmed over all paths' discharges"},
     {"name": "smt", "path": "vt/smt.py", "serves_properties": [],
@@ -36,6 +40,36 @@ CHECKS["C19"] = dict(
          "n_bytes < max_bunch_bytesize assumed; longer lists and larger limits are outside the claim; trusted: CrossHair/z3.",
     technique="CrossHair symbolic execution of the real method, all paths confirmed within bounds",
     design_ref="6/C19")
+
+SQL_NOTE = ("Trusted base: the vt/sqlsym MySQL-subset interpreter (semantics S1-S8 in DESIGN.md 3.1; no MySQL server in the "
+            "sandbox), z3. Assumes each procedure call / @transaction body is atomic and serial (InnoDB locking, isolation, "
+            "deadlocks out of scope), no integer overflow, one batch/user, bounded key spaces; front-end environment stubs "
+            "(auth bypass, inst_coll selection, JSON, file store, clock, token randomness) return arbitrary values.")
+
+CHECKS["C01"] = dict(
+    level="model_checking",
+    text="(a) jobs_after_update executed symbolically on an arbitrary OLD/NEW row: each of 13 counter deltas equals the "
+         "recount indicator difference — loop-free LIA, all values. (b) Bounded model checking from the EMPTY database with "
+         "the real front-end Python (run natively through a path-exploring glue layer) and the real stored procedures: "
+         "symbolic batch shape (group tree, job->group, parents, always_run, cores, tokens), then every sequence of k=2 "
+         "operation kinds with symbolic arguments plus named depth-4 scenarios; after each step token-sums of "
+         "user_inst_coll_resources and job_group_inst_coll_cancellable_resources equal the recount. Counterexamples are "
+         "replayed concretely on the real Python + concrete emulator. Bounded: J<=3 jobs, G<=3 groups, 2 updates, depth 2 (+4).",
+    note=SQL_NOTE + " Scheduler enabledness (which jobs schedule_job is called for) is hand-transcribed from pool.py's WHERE clauses.",
+    technique="z3 over a symbolic execution of the real SQL routines and front-end Python: trigger-step LIA proof + BMC from the empty database",
+    design_ref="6/C01, 3.1")
+
+CHECKS["C03"] = dict(
+    level="other",
+    text="Inductive step in z3 (LIA, unbounded integer values): from an arbitrary database state satisfying 'rollup<=end when "
+         "both set', one call of each real routine that updates attempts (five stored procedures with the "
+         "attempts_before_update trigger, and the real billing_update_1 heartbeat) with arbitrary arguments; the property's "
+         "clauses on (OLD,NEW) and the invariant are asserted. Covers histories of any length/multiplicity; a source scan "
+         "fails the check if a routine updating attempts is not driven.",
+    note=SQL_NOTE + " Caller contract assumed: non-NULL end/timestamps for existing attempts, reasons are the callers' literals, "
+         "only mark_job_complete may carry a NULL start; permissive reading of the 'unless' clause (see DESIGN 6/C03).",
+    technique="z3 LIA inductive step over symbolically executed SQL triggers/procedures and the real heartbeat handler",
+    design_ref="6/C03")
 
 NOT_APPLICABLE = {
     "C37": "Scala floating-point statistics calling Apache commons-math (gamma/beta, root finding); no scalac/JVM build of "
